@@ -116,6 +116,12 @@ func (w *World) Content(t string, l *Ledger) (txs []*wire.MsgTx, ok bool) {
 		c1 := &Coin{OP: wire.OutPoint{Hash: h1, Index: 0}, Value: 4 * Mass, Class: ClassStd}
 		t2 := spend([]*Coin{c1}, out(4*Mass-fee, B.Addrs[0].Pk))
 		return []*wire.MsgTx{cb, t1, t2}, true
+	case "a2b": // A spends its oldest coin entirely to B (a transaction that spends one wallet and pays only the other)
+		c := w.walletCoin(l, "A", ClassStd, nil)
+		if c == nil || B == nil {
+			return nil, false
+		}
+		return []*wire.MsgTx{cb, spend([]*Coin{c}, out(c.Value-fee, B.Addrs[0].Pk))}, true
 	case "ab":
 		c := s()
 		if c == nil || B == nil {
@@ -167,12 +173,12 @@ func (w *World) Content(t string, l *Ledger) (txs []*wire.MsgTx, ok bool) {
 // relevant reports whether tx has an input or output owned by a wallet role, on ledger l.
 func (w *World) relevant(tx *wire.MsgTx, l *Ledger) bool {
 	for _, in := range tx.TxIn {
-		if c := l.Coins[in.PreviousOutPoint]; c != nil && c.Owner != nil {
+		if c := l.Coins[in.PreviousOutPoint]; c != nil && w.live(c.Owner) {
 			return true
 		}
 	}
 	for _, o := range tx.TxOut {
-		if _, h, _, _ := Classify(o.PkScript); h != nil && w.owner[fmt.Sprintf("%x", h)] != nil {
+		if _, h, _, _ := Classify(o.PkScript); h != nil && w.live(w.owner[fmt.Sprintf("%x", h)]) {
 			return true
 		}
 	}
@@ -294,6 +300,8 @@ func (w *World) prefixLen() int {
 // Apply executes one event. enabled=false means the event is not enabled in this state
 // (nothing happened).
 func (w *World) Apply(ev string) (enabled bool, err error) {
+	w.statusCache = nil
+	defer func() { w.statusCache = nil }()
 	p := strings.Split(ev, ".")
 	switch p[0] {
 	case "d":
@@ -301,6 +309,8 @@ func (w *World) Apply(ev string) (enabled bool, err error) {
 			return false, nil
 		}
 		return true, w.Deliver()
+	case "i", "k", "z":
+		return w.ApplyTask(ev)
 	case "y":
 		if len(w.N.Queue) != 0 {
 			return false, nil // relays are only explored on a caught-up wallet (DESIGN §5 C09)
@@ -321,6 +331,9 @@ func (w *World) Apply(ev string) (enabled bool, err error) {
 			txs, ok = w.PendingBlockContent(p[1], w.Ledger())
 		}
 		if !ok {
+			txs, ok = w.CContent(p[1], w.Ledger())
+		}
+		if !ok {
 			return false, nil
 		}
 		_, err := w.N.Extend(txs)
@@ -331,7 +344,24 @@ func (w *World) Apply(ev string) (enabled bool, err error) {
 		if !ok {
 			return false, nil
 		}
+		var rolled []*wire.MsgTx
+		for _, b := range w.N.Best[len(w.N.Best)-k:] {
+			for _, tx := range b.Msg.Transactions {
+				if !blockchain.IsCoinBaseTx(tx) {
+					rolled = append(rolled, tx)
+				}
+			}
+		}
 		_, err := w.N.Reorg(k, gens)
+		// like a real node, the simulator keeps the transactions of disconnected blocks in
+		// its pool: later templates do not double-spend them by accident and "cp" can re-mine them
+		l := w.Ledger()
+		for _, tx := range rolled {
+			if !w.onChain(tx, l) {
+				w.Relayed = append(w.Relayed, tx)
+				w.RelayedKind = append(w.RelayedKind, "rb")
+			}
+		}
 		return true, err
 	}
 	return false, fmt.Errorf("unknown event %q", ev)
